@@ -23,6 +23,9 @@ CLAIMED = {
  "C16": ("E2 product (complete, finite)",
          "the complete operator x operand matrix over 13 representative values of the 8 kinds (15 binary operators + `..`, 13x13 operands, two spellings), 5 op-assign operators x 4 target forms x 13x13, 45 typed contexts x 13 values; every cell executed on the real interpreter and judged against the table written out from the property statement, cross-checked with the reference model",
          "exhaustive enumeration of a finite product space on the real interpreter against a reference table"),
+ "C20": ("E1 breadth-first history exploration + E2 product",
+         "all histories of <= 4 (quick) / <= 6 (thorough, wall-capped; 5 completes) operations from 41 operations on x, y and `_` (declare through :=, list pattern, object pattern, fn, for target, parameter; assign; op-assign; read; open / close block, if, loop, function; `_` as target in every entry point; print(_); duplicate names in patterns and parameter lists; collect targets), dead states not expanded; plus 9 non-bindable expression kinds x 9 binding positions; oracle = reference scoping: success / failure, position of the offending name, earlier declaration's position cited in the message",
+         "explicit-state breadth-first exploration of operation histories on the real interpreter against a reference model"),
 }
 
 NOT_YET = "check under construction (its exhaustive exploration is not built yet); will be claimed once it exists"
